@@ -142,9 +142,64 @@ func TestVerifC05ResumedPSKPadding(t *testing.T) {
 					st.NonTrivial(fmt.Sprintf("resumedpsk|%s|%d|%d|%v", p.Name, n, u, pad))
 					st.Class("resumed-psk-judged")
 				}
+				if i == 1 && h.Ext(41) != nil {
+					vf05FingerprintPSKCapture(st, t, p.Name, hellos[0], uint64(n))
+				}
 				pr.Echo([]byte("a"), []byte("b"))
 				pr.Close()
 			}
 		}
+	}
+}
+
+// A resumption capture (padding extension followed by pre_shared_key, or pre_shared_key alone when the hello was too
+// long to be padded) is fingerprinted with and without AlwaysAddPadding: the spec must list at most one padding
+// extension, re-apply, and the new hello obeys the policy (and reproduces the captured length when the capture was padded).
+func vf05FingerprintPSKCapture(st *vfStats, t vfFataler, parrot string, capture []byte, stream uint64) {
+	hc := vfParseClientHello(capture)
+	capPad := hc.Ext(21)
+	sni, _ := hc.SNI()
+	for _, alwaysAdd := range []bool{false, true} {
+		st.Eval()
+		spec, err := (&Fingerprinter{AlwaysAddPadding: alwaysAdd}).FingerprintClientHello(vf05Record(capture))
+		if err != nil {
+			st.Class("fp-psk-skipped:fingerprint-error")
+			continue
+		}
+		what := fmt.Sprintf("%s resumption capture (U=%d, padding %v, pre_shared_key last) fingerprinted with AlwaysAddPadding=%v", parrot, vfUnpaddedLen(hc), capPad != nil, alwaysAdd)
+		cnt := 0
+		for _, e := range spec.Extensions {
+			if _, ok := e.(*UtlsPaddingExtension); ok {
+				cnt++
+			}
+		}
+		if cnt > 1 {
+			st.Violation(t, "%s: spec lists %d padding extensions", what, cnt)
+		}
+		raw, err := vf05BuildCustom(spec, vfDNSNameOfLen(len(sni), 'z'), stream+99)
+		if err != nil {
+			st.Violation(t, "%s: re-applying the fingerprint failed: %v", what, err)
+		}
+		h := vfParseClientHello(raw)
+		if len(h.Violations) > 0 {
+			st.Violation(t, "%s: hello from the fingerprint does not parse: %v", what, h.Violations)
+		}
+		if vfUnpaddedLen(h) != vfUnpaddedLen(hc) {
+			st.Class("fp-psk-skipped:unpadded-length-differs")
+			continue
+		}
+		if capPad != nil && len(raw) != len(capture) {
+			st.Violation(t, "%s: capture of %d bytes reproduced with %d bytes", what, len(capture), len(raw))
+		}
+		if capPad != nil || alwaysAdd {
+			// Boring-style padding is in force (captured from the parrot, or added by the flag)
+			if _, _, fail := vf05Judge(raw); fail != "" {
+				st.Violation(t, "%s: %s", what, fail)
+			}
+		} else if h.Ext(21) != nil {
+			st.Violation(t, "%s: padding extension appeared although neither captured nor requested", what)
+		}
+		st.Class(fmt.Sprintf("fp-psk:pad=%v:alwaysAdd=%v", capPad != nil, alwaysAdd))
+		st.NonTrivial(fmt.Sprintf("fppsk|%s|%d|%v", parrot, len(capture), alwaysAdd))
 	}
 }
